@@ -9,6 +9,7 @@ Contract checked at run time on the REAL kernel.theory.check_proof / Theory.chec
 Inputs: exhaustive small proof objects (identifiers disagreeing with positions, forward / self /
 into-closed-block citations, stated sequents stronger than derived, empty-rule lines, placeholders at
 depth) plus seeded random mutations of correct proofs."""
+import os
 import copy
 import itertools
 import random
@@ -17,8 +18,8 @@ import time
 
 
 def _setup():
-    if '/repo' not in sys.path:
-        sys.path.insert(0, '/repo')
+    if os.environ.get('HOLPY_REPO', '/repo') not in sys.path:
+        sys.path.insert(0, os.environ.get('HOLPY_REPO', '/repo'))
     from logic import basic
     basic.load_theory('logic_base')
 
